@@ -296,3 +296,90 @@ theorem C12_required_resolves {V : Type} {m : Module} {out : Out} {ro : ROverrid
         rw [hreq] at this; cases this
 
 end WgslVerif
+
+namespace WgslVerif
+
+theorem mapGet_none {V : Type} (kvs : List (String × V)) (k : String)
+    (h : ∀ kv ∈ kvs, kv.1 ≠ k) : mapGet kvs k = none := by
+  unfold mapGet
+  have : kvs.reverse.find? (fun kv => kv.1 == k) = none := by
+    apply List.find?_eq_none.mpr
+    intro kv hkv
+    have := h kv (by simpa using hkv)
+    simpa using this
+  rw [this]; rfl
+
+/-- **C12** (optional overrides): an override with a default is in the map exactly when its field
+was set – then under naga's key with the value from its own field; when the field is `None` the
+key is absent, so the shader's default applies. -/
+theorem C12_optional_resolves {V : Type} {m : Module} {out : Out} {ro : ROverrides}
+    (hok : C12Ok m out) (hro : out.overrides = some ro)
+    (hdist : (m.overrides.map nagaKey).Nodup)
+    (req : String → V) (opt : String → Option V)
+    (ov : Override) (hov : ov ∈ m.overrides) (hinit : ov.hasInit = true)
+    (k n : String) (hk : nagaKey ov = some k) (hn : ov.name = some n) :
+    mapGet (constantsMap ro req opt) k = opt n := by
+  have hR := hok.required ro hro
+  have hO := hok.optional ro hro
+  have keyOwner : ∀ ov' ∈ m.overrides, nagaKey ov' = some k → ov' = ov := by
+    intro ov' hov' hk'
+    exact nodup_map_inj hdist hov' hov (by rw [hk', hk])
+  -- every entry with key `k` in the map comes from `ov`'s optional entry, with value `opt n`
+  have hall : ∀ kv ∈ constantsMap ro req opt, kv.1 = k → ∃ v, opt n = some v ∧ kv = (k, v) := by
+    intro kv hkv hkk
+    unfold constantsMap at hkv
+    rcases List.mem_append.mp hkv with h1 | h1
+    · obtain ⟨e', he', rfl⟩ := List.mem_map.mp h1
+      have : (some e'.key, some e'.field, e'.conv) ∈ (m.overrides.filter fun ov => !ov.hasInit).map
+          (fun ov => (nagaKey ov, ov.name, convOf m ov)) := by
+        rw [← hR]; exact List.mem_map.mpr ⟨e', he', rfl⟩
+      obtain ⟨ov', hov', hee'⟩ := List.mem_map.mp this
+      simp only [Prod.mk.injEq] at hee'
+      have hk' : nagaKey ov' = some k := by rw [hee'.1]; simp at hkk; rw [hkk]
+      have := keyOwner ov' (List.mem_filter.mp hov').1 hk'
+      subst this
+      have := (List.mem_filter.mp hov').2
+      rw [hinit] at this; cases this
+    · obtain ⟨e', he', hsome⟩ := List.mem_filterMap.mp h1
+      have : (some e'.key, some e'.field, e'.conv) ∈ (m.overrides.filter fun ov => ov.hasInit).map
+          (fun ov => (nagaKey ov, ov.name, convOf m ov)) := by
+        rw [← hO]; exact List.mem_map.mpr ⟨e', he', rfl⟩
+      obtain ⟨ov', hov', hee'⟩ := List.mem_map.mp this
+      simp only [Prod.mk.injEq] at hee'
+      cases hopt : opt e'.field with
+      | none => rw [hopt] at hsome; cases hsome
+      | some v =>
+        rw [hopt] at hsome
+        simp at hsome
+        subst hsome
+        have hk' : nagaKey ov' = some k := by rw [hee'.1]; simp at hkk; rw [hkk]
+        have := keyOwner ov' (List.mem_filter.mp hov').1 hk'
+        subst this
+        have hf : e'.field = n := by
+          have := hee'.2.1; rw [hn] at this; injection this with this; exact this.symm
+        simp at hkk
+        exact ⟨v, by rw [← hf, hopt], by rw [hkk]⟩
+  cases hon : opt n with
+  | none =>
+    apply mapGet_none
+    intro kv hkv hkk
+    obtain ⟨v, hv, _⟩ := hall kv hkv hkk
+    rw [hon] at hv; cases hv
+  | some v =>
+    apply mapGet_unique
+    · -- the entry is present
+      have hmemO : (some k, some n, convOf m ov) ∈ ro.optional.map (fun e => (some e.key, some e.field, e.conv)) := by
+        rw [hO]
+        exact List.mem_map.mpr ⟨ov, List.mem_filter.mpr ⟨hov, hinit⟩, by rw [hk, hn]⟩
+      obtain ⟨e, he, hee⟩ := List.mem_map.mp hmemO
+      simp only [Prod.mk.injEq, Option.some.injEq] at hee
+      unfold constantsMap
+      apply List.mem_append_right
+      apply List.mem_filterMap.mpr
+      exact ⟨e, he, by rw [hee.2.1, hon, hee.1]; rfl⟩
+    · intro kv hkv hkk
+      obtain ⟨v', hv', e⟩ := hall kv hkv hkk
+      rw [hon] at hv'; injection hv' with hv'
+      rw [e, hv']
+
+end WgslVerif
